@@ -5,7 +5,7 @@ from .. import gen_simfile as G
 
 ID = "C01"
 N_QUICK, N_THOROUGH = 1500, 80000
-RULE = ("edit scripts (0..40 ops: set/del by key or attribute, chart add/remove/reorder/replace, field and extradata edits) applied to "
+RULE = ("edit scripts (0..40 ops: set/del by key or attribute, chart add/remove/reorder/replace (also the same chart object attached again), field and extradata edits) applied to "
         "SMSimfile.blank(), an empty simfile and the corpus SM file; values from a metacharacter-dense alphabet + Unicode, inside the property's "
         "domain (msdparser escaping gaps excluded); compares str(sf), strict reload, second serialisation, auto-detection; K1 probes separately; "
         "non-trivial = at least one property value containing a metacharacter or at least one chart")
